@@ -5,6 +5,7 @@ from ..summary import Item, items, is_ok, bv
 from . import inherit_spec as IS
 
 ID = 'C06'
+ENGINE_B = {'template': 't_inherit', 'kinds': ['accessor_', 'dispatch_', 'layout_'], 'max_quick': 6, 'max_thorough': 32}
 EXPLANATION = ('Template t_inherit (bases A and B each with or without a vftable block, derived D with one or two #[base] fields and no / a '
                'prefix-repeating / a non-repeating vftable block, one of eight single-slot mutations of the repeated prefix — rename, '
                'parameter type, return type, receiver mutability, calling convention, dropped slot, extra parameter, swapped slots — and '
@@ -32,20 +33,20 @@ def assume(a, ps, sub):
     A.append(z3.Implies(a[9] == 0, a[11] == 0))
     A.append(z3.Implies(z3.And(a[1] == 0, z3.Or(a[4] != 1, a[5] == 5)), a[13] == 0))
     if sub == 'tables':
-        A += [a[8] == 0, a[9] == 0, a[10] == 0, a[11] == 0, z3.Or(a[13] == 0, a[13] == 3, a[13] == 1)]
+        A += [a[8] == 0, a[9] == 0, a[10] == 0, a[11] == 0, z3.Or(a[13] == 0, a[13] == 3, a[13] == 1), a[14] == 0]
     else:
-        A += [a[5] == 0, a[13] == 0, a[7] == 0]
+        A += [a[5] == 0, a[13] == 0, a[7] == 0, z3.ULE(a[14], 1), z3.Implies(a[4] != 1, a[14] == 0)]
     return A
 
 
 def slices(tier, rng):
-    return [Slice('tables-ps%d' % ps, 't_inherit', 14, lambda a, ps=ps: assume(a, ps, 'tables'), opts={'must_reach': ['ok', 'err']})
+    return [Slice('tables-ps%d' % ps, 't_inherit', 15, lambda a, ps=ps: assume(a, ps, 'tables'), opts={'must_reach': ['ok', 'err']})
             for ps in (4, 8)]
 
 
 def pinned(a, wit):
     """negation of: the path condition admits only the witness description"""
-    return z3.Or(*[a[i] != z3.BitVecVal(wit[i], 64) for i in range(14)])
+    return z3.Or(*[a[i] != z3.BitVecVal(wit[i], 64) for i in range(15)])
 
 
 def fn_sig(f):
@@ -102,7 +103,7 @@ def leaf_queries(I, a, leaf, py, sl):
         else: compare_tables(py, M, problems)
     else:
         if M['accept']: problems.append('rejected although the reference accepts')
-    this = z3.And(*[a[i] == z3.BitVecVal(wit[i], 64) for i in range(14)])
+    this = z3.And(*[a[i] == z3.BitVecVal(wit[i], 64) for i in range(15)])
     qs.append(Query('outcome-matches-reference:' + ('; '.join(problems)[:200] if problems else 'ok'),
                     this if problems else z3.BoolVal(False)))
     return qs
